@@ -228,7 +228,7 @@ func (c *Ctx) Obj(pkg, name string) types.Object {
 }
 
 func (c *Ctx) Pos(p token.Pos) string {
-	if !p.IsValid() {
+	if !p.IsValid() || c == nil {
 		return "-"
 	}
 	pos := c.Fset.Position(p)
